@@ -83,6 +83,13 @@ def check(tier, seed, replay=None):
             b = ("str", [98] * (n // 2) + [34] + [233] * 3 + [98] * n)
             v = ("obj", [([105, 100], ("num", "1")), ([116], a), ([117], ("arr", [b, ("num", "2")])), ([99] * n, ("null",))])
             recipes.append({"utf8": n % 2 == 0, "sep": "0a", "known": True, "stdin": hexs(G.canonical(a) + b"\n" + G.canonical(v) + b"\n"), "extra": [], "long": True})
+        # one big row (the whole input merged / grouped into one value of 9 .. 12 KB: three records with a string of 3 000 characters each) under row
+        # separators with and without a line break: a row is complete when it is followed by the separator, however long it is and whatever
+        # collected it  (few long tokens: the strict reader takes plain runs in one piece; rows of thousands of small tokens are too slow for it)
+        for sepx in ("0a", "20", "3b"):
+            for extra in (["--merge"], ["--group-by=.g"]):
+                rows = b"".join(b'{"id": %d, "g": "%s", "t": "%s"}\n' % (k, [b"a", b"b"][k % 2], bytes([97 + k]) * (3000 + k)) for k in range(3 if quick else 6))
+                recipes.append({"utf8": False, "sep": sepx, "known": False, "stdin": hexs(rows), "extra": extra, "long": True})
         # the witness of the known finding
         recipes.append({"utf8": False, "sep": "0a", "known": True, "stdin": hexs('"\U0001F603"'.encode()), "extra": []})
 
@@ -100,7 +107,7 @@ def check(tier, seed, replay=None):
     for ri, rc in enumerate(recipes):
         for k, (key, st) in enumerate(STYLES):
             # second pass: jawk reads its own output with the same options (a computed column is not re-applied: the row is the value)
-            a = [x for x in argv_of(rc, st) if not x.startswith("--select")]
+            a = [x for x in argv_of(rc, st) if not x.startswith(("--select", "--merge", "--group-by"))]
             cases2.append({"id": len(cases2), "argv": a, "stdin": obs[3 * ri + k]["out"]})
     obs2 = run_cases(jvh, cases2)
     recs = []
